@@ -3,6 +3,8 @@
 This module defines text regions in both pixel and sky coordinates.
 """
 
+import numpy as np
+
 from regions._utils.wcs_helpers import pixel_scale_angle_at_skycoord
 from regions.core.attributes import (RegionMetaDescr, RegionText,
                                      RegionVisualDescr,
@@ -102,7 +104,9 @@ class TextPixelRegion(PointPixelRegion):
         mpl_kwargs = self.visual.define_mpl_kwargs(self._mpl_artist)
         mpl_kwargs.update(kwargs)
 
-        return Text(self.center.x - origin[0], self.center.y - origin[1],
+        # in float64: an unsigned integer origin would wrap around
+        return Text(np.subtract(self.center.x, origin[0], dtype=float),
+                    np.subtract(self.center.y, origin[1], dtype=float),
                     self.text, **mpl_kwargs)
 
 
